@@ -53,9 +53,9 @@ typedef struct Node { int type, slot, n; struct Node *kids, *parent; KSI_Rule *r
 typedef struct {
 	int npol, nslot;
 	Node root[MAXPOL]; KSI_Policy *pol[MAXPOL]; char name[MAXPOL][16];
-	int slot_pol[MAXSLOT], slot_parent[MAXSLOT];
+	int slot_pol[MAXSLOT];
 	Node *slot_node[MAXSLOT];
-	const char *text;
+	const char *text; uint64_t text_hash;
 } Chain;
 
 /* ---------------------------------------------------------------- instrumented basic rules */
@@ -169,7 +169,7 @@ static int parse_list(const char **ps, Node *owner, Chain *c, int pol, int depth
 		memset(&e, 0, sizeof(e));
 		if (ch == 'b') {
 			if (c->nslot >= MAXSLOT) return -1;
-			e.type = T_BASIC; e.slot = c->nslot++; c->slot_pol[e.slot] = pol; c->slot_parent[e.slot] = owner->type;
+			e.type = T_BASIC; e.slot = c->nslot++; c->slot_pol[e.slot] = pol;
 			(*ps)++;
 		} else if (ch == 'a' || ch == 'o') {
 			e.type = ch == 'a' ? T_AND : T_OR;
@@ -216,7 +216,7 @@ static void chain_free(Chain *c) {
 }
 static int chain_build(Chain *c, const char *text) {
 	const char *s = text; int p;
-	memset(c, 0, sizeof(*c)); c->text = text;
+	memset(c, 0, sizeof(*c)); c->text = text; c->text_hash = vh_hash_bytes(text, strlen(text));
 	for (;;) {
 		if (c->npol >= MAXPOL) goto bad;
 		p = c->npol++;
@@ -250,14 +250,17 @@ static char *fmt_log(const int *log, int n, char *buf, size_t sz) {
 	return buf;
 }
 static void report(const Chain *c, const char *key, const char *detail) {
-	char replay[1024], outs[MAXSLOT + 1], l1[1024], l2[1024]; int i;
+	char replay[2048], outs[MAXSLOT + 1], l1[1024], l2[1024]; int i;
 	n_viol_total++;
 	for (i = 0; i < n_seen_keys; i++) if (!strcmp(seen_keys[i], key)) return;
 	if (n_seen_keys < 64) snprintf(seen_keys[n_seen_keys++], sizeof(seen_keys[0]), "%s", key);
 	for (i = 0; i < c->nslot; i++) outs[i] = (char)('0' + g_out[i]);
 	outs[c->nslot] = 0;
-	snprintf(replay, sizeof(replay), "chain=%s outcomes=%s fill=%d", c->text, outs, g_fill);
-	vh_viol(key, replay, "%s; %s; rules invoked by the library: [%s]; by the reference: [%s]", detail, replay,
+	snprintf(replay, sizeof(replay), "chain=%s outcomes=%s fill=%d   [re-run: bin/check C05 --replay <this file>. chain: b basic rule, a(..) AND composite, o(..) OR composite, "
+		"| next policy is the fallback of the previous one; one outcome digit per basic rule in text order: 0 OK, 1 NA, 2 FAIL, 3 internal error (result written OK), "
+		"4 KSI_OK without touching the result, 5 internal error (result written FAIL), 6 internal error (result untouched), 7 NA with error code NONE; "
+		"fill 1: every rule stores objects in context->tempData]", c->text, outs, g_fill);
+	vh_viol(key, replay, "%s; chain %s outcomes %s; rules invoked by the library: [%s]; by the reference: [%s]", detail, c->text, outs,
 		fmt_log(g_log, g_nlog, l1, sizeof(l1)), fmt_log(ref_log, ref_nlog, l2, sizeof(l2)));
 }
 
@@ -276,7 +279,7 @@ static void run_case(Chain *c, KSI_VerificationContext *vc) {
 
 	vh_eval++;
 	{ /* distinct = chain shape + executed path (invoked rules and their outcomes) as predicted by the reference */
-		uint64_t h = vh_hash_bytes(c->text, strlen(c->text));
+		uint64_t h = c->text_hash;
 		for (i = 0; i < ref_nlog; i++) h = vh_mix(h, (uint64_t)ref_log[i] * 8 + g_out[ref_log[i]]);
 		vh_fp(h);
 	}
@@ -326,6 +329,7 @@ static void run_case(Chain *c, KSI_VerificationContext *vc) {
 		report(c, key, detail);
 		goto done;
 	}
+	lastdesc[0] = 0;
 	if (fin.last >= 0) snprintf(lastdesc, sizeof(lastdesc), "last-rule-%s", OUTNAME[g_out[fin.last]]);
 
 	/* 2. return code; no verdict together with an internal error */
@@ -356,7 +360,7 @@ static void run_case(Chain *c, KSI_VerificationContext *vc) {
 			snprintf(detail, sizeof(detail), "finalResult.errorCode is 0x%x, the last rule evaluated (%d) reported 0x%x", result->finalResult.errorCode, fin.last, ec);
 			report(c, key, detail);
 		}
-		if (result->finalResult.ruleName != RULENAME[fin.last]) {
+		if (result->finalResult.ruleName == NULL || strcmp(result->finalResult.ruleName, RULENAME[fin.last]) != 0) {
 			snprintf(key, sizeof(key), "verify:final-rule-name:%s", lastdesc);
 			snprintf(detail, sizeof(detail), "finalResult.ruleName is %s, the last rule evaluated was %s", result->finalResult.ruleName ? result->finalResult.ruleName : "(null)", RULENAME[fin.last]);
 			report(c, key, detail);
